@@ -85,24 +85,27 @@ rule for that other family — this also applies to the negated fields. -/
 def familyOK (v6 : Bool) (nets : List String) : Bool :=
   nets.isEmpty || nets.any (fun c => cidrIsV6 c == v6)
 
-/-- CIDR criteria (positive lists: some CIDR of the packet's family contains the address;
-negated lists: none does; plus the family reading above). -/
-def netsMatch (env : Env) (r : Rule) (pkt : Packet) : Bool :=
-  familyOK pkt.v6 r.srcNet && familyOK pkt.v6 r.notSrcNet &&
-  familyOK pkt.v6 r.dstNet && familyOK pkt.v6 r.notDstNet &&
-  (r.srcNet.isEmpty || r.srcNet.any (fun c => netHas env pkt.v6 c pkt.src)) &&
-  (r.dstNet.isEmpty || r.dstNet.any (fun c => netHas env pkt.v6 c pkt.dst)) &&
-  !r.notSrcNet.any (fun c => netHas env pkt.v6 c pkt.src) &&
-  !r.notDstNet.any (fun c => netHas env pkt.v6 c pkt.dst)
+/-- positive CIDR list: some CIDR of the packet's family contains the address (or no list) -/
+def posNetOK (env : Env) (v6 : Bool) (nets : List String) (a : Nat) : Bool :=
+  familyOK v6 nets && (nets.isEmpty || nets.any (fun c => netHas env v6 c a))
 
-/-- every criterion other than IP version and CIDRs -/
-def restMatch (env : Env) (setName : String → String) (r : Rule) (pkt : Packet) : Bool :=
-  (match r.protocol with | none => true | some p => protoIs env (protoTrunc p) pkt.proto) &&
+/-- negated CIDR list: no CIDR of the packet's family contains the address -/
+def negNetOK (env : Env) (v6 : Bool) (nets : List String) (a : Nat) : Bool :=
+  familyOK v6 nets && !nets.any (fun c => netHas env v6 c a)
+
+/-- CIDR criteria (with the family reading above). -/
+def netsMatch (env : Env) (r : Rule) (pkt : Packet) : Bool :=
+  posNetOK env pkt.v6 r.srcNet pkt.src && negNetOK env pkt.v6 r.notSrcNet pkt.src &&
+  posNetOK env pkt.v6 r.dstNet pkt.dst && negNetOK env pkt.v6 r.notDstNet pkt.dst
+
+def protoOK (env : Env) (r : Rule) (pkt : Packet) : Bool :=
+  match r.protocol with | none => true | some p => protoIs env (protoTrunc p) pkt.proto
+
+/-- IP sets, (ip,port) sets, ICMP, negated protocol / ports / named ports / ICMP -/
+def otherMatch (env : Env) (setName : String → String) (r : Rule) (pkt : Packet) : Bool :=
   r.srcIpSetIds.all (fun id => env.inIPSet (setName id) pkt.src) &&
-  portsMatch env setName r.srcPorts r.srcNamedPortIpSetIds pkt.proto pkt.src pkt.sport &&
   r.dstIpSetIds.all (fun id => env.inIPSet (setName id) pkt.dst) &&
   r.dstIpPortSetIds.all (fun id => env.inIPPortSet (setName id) pkt.dst pkt.proto pkt.dport) &&
-  portsMatch env setName r.dstPorts r.dstNamedPortIpSetIds pkt.proto pkt.dst pkt.dport &&
   icmpMatches pkt r.icmp &&
   (match r.notProtocol with | none => true | some p => !protoIs env (protoTrunc p) pkt.proto) &&
   r.notSrcIpSetIds.all (fun id => !env.inIPSet (setName id) pkt.src) &&
@@ -112,6 +115,13 @@ def restMatch (env : Env) (setName : String → String) (r : Rule) (pkt : Packet
   (r.notDstPorts.isEmpty || (isPortProto pkt.proto && !inRanges r.notDstPorts pkt.dport)) &&
   r.notDstNamedPortIpSetIds.all (fun id => !env.inIPPortSet (setName id) pkt.dst pkt.proto pkt.dport) &&
   notIcmpMatches pkt r.notIcmp
+
+/-- every criterion other than IP version and CIDRs -/
+def restMatch (env : Env) (setName : String → String) (r : Rule) (pkt : Packet) : Bool :=
+  protoOK env r pkt &&
+  portsMatch env setName r.srcPorts r.srcNamedPortIpSetIds pkt.proto pkt.src pkt.sport &&
+  portsMatch env setName r.dstPorts r.dstNamedPortIpSetIds pkt.proto pkt.dst pkt.dport &&
+  otherMatch env setName r pkt
 
 /-- **Reference semantics**: does policy rule `r` match packet `pkt`?
 Every criterion that is present must hold (positive lists: any element; negated lists: no
